@@ -476,21 +476,22 @@ theorem min_step {lt : α → α → Bool} {S : α → Prop} (sw : StrictWeak lt
       subst hu; exact h
 
 /-- every argument value is a key on which the comparison is consistent -/
-def ValsOk (a : AggSpec) (rows : List Row) : Prop := ∀ t ∈ argVals a rows, okKey (some t) = true
+def ValsOkAt (wd : Bool) (a : AggSpec) (rows : List Row) : Prop := ∀ t ∈ argVals a rows, okKey wd (some t) = true
 
-theorem valsOk_prefix {a : AggSpec} {rows : List Row} {r : Row} (h : ValsOk a (rows ++ [r])) : ValsOk a rows := by
+theorem valsOk_prefix {wd : Bool} {a : AggSpec} {rows : List Row} {r : Row} (h : ValsOkAt wd a (rows ++ [r])) : ValsOkAt wd a rows := by
   intro t ht
   apply h t
   rw [argVals_snoc]
   exact List.mem_append_left _ ht
 
-theorem strictWeak_termKey : StrictWeak (fun x y : Term => keyLt (some x) (some y)) (fun t => okKey (some t) = true) :=
-  ⟨fun a b ha hb h => strictWeak_keyLt.asymm _ _ ha hb h,
-   fun a b c ha hb hc h1 h2 => strictWeak_keyLt.ntrans _ _ _ ha hb hc h1 h2⟩
+theorem strictWeak_termKey (wd : Bool) :
+    StrictWeak (fun x y : Term => keyLt (some x) (some y)) (fun t => okKey wd (some t) = true) :=
+  ⟨fun a b ha hb h => (strictWeak_keyLt wd).asymm _ _ ha hb h,
+   fun a b c ha hb hc h1 h2 => (strictWeak_keyLt wd).ntrans _ _ _ ha hb hc h1 h2⟩
 
-theorem min_inv (a : AggSpec) (hk : a.kind = .min) : ∀ rows : List Row, ValsOk a rows →
+theorem min_inv (wd : Bool) (a : AggSpec) (hk : a.kind = .min) : ∀ rows : List Row, ValsOkAt wd a rows →
     (argVals a rows = [] ∧ accRun a rows = .ext none) ∨ (∃ m, accRun a rows = .ext (some m) ∧ IsMinOf m (argVals a rows)) := by
-  refine accRun_induction a (fun rows st => ValsOk a rows →
+  refine accRun_induction a (fun rows st => ValsOkAt wd a rows →
     (argVals a rows = [] ∧ st = .ext none) ∨ (∃ m, st = .ext (some m) ∧ IsMinOf m (argVals a rows))) ?_ ?_
   · intro _; exact Or.inl ⟨rfl, by simp [initAcc, hk]⟩
   · intro rows r st ih hok
@@ -504,7 +505,7 @@ theorem min_inv (a : AggSpec) (hk : a.kind = .min) : ∀ rows : List Row, ValsOk
       · exact Or.inr ⟨m, by simp [AccSt.update, he], h2⟩
     | some t =>
       have e1 : argVals a (rows ++ [r]) = argVals a rows ++ [t] := by simp [argVals_snoc, he]
-      have ht : okKey (some t) = true := hok t (by rw [e1]; simp)
+      have ht : okKey wd (some t) = true := hok t (by rw [e1]; simp)
       rw [e1]
       right
       rcases ih' with ⟨h1, rfl⟩ | ⟨m, rfl, h2⟩
@@ -515,14 +516,14 @@ theorem min_inv (a : AggSpec) (hk : a.kind = .min) : ∀ rows : List Row, ValsOk
         simp only [List.nil_append, List.mem_cons, List.not_mem_nil, or_false] at hu
         subst hu
         rw [keyLt_eq]; simp [keyInner, termLt_irrefl]
-      · have := min_step strictWeak_termKey (m := m) (t := t) (vals := argVals a rows)
+      · have := min_step (strictWeak_termKey wd) (m := m) (t := t) (vals := argVals a rows)
           (fun u hu => valsOk_prefix hok u hu) ht h2
         refine ⟨if keyLt (some t) (some m) then t else m, ?_, this⟩
         simp [AccSt.update, he, hk]
 
-theorem max_inv (a : AggSpec) (hk : a.kind = .max) : ∀ rows : List Row, ValsOk a rows →
+theorem max_inv (wd : Bool) (a : AggSpec) (hk : a.kind = .max) : ∀ rows : List Row, ValsOkAt wd a rows →
     (argVals a rows = [] ∧ accRun a rows = .ext none) ∨ (∃ m, accRun a rows = .ext (some m) ∧ IsMaxOf m (argVals a rows)) := by
-  refine accRun_induction a (fun rows st => ValsOk a rows →
+  refine accRun_induction a (fun rows st => ValsOkAt wd a rows →
     (argVals a rows = [] ∧ st = .ext none) ∨ (∃ m, st = .ext (some m) ∧ IsMaxOf m (argVals a rows))) ?_ ?_
   · intro _; exact Or.inl ⟨rfl, by simp [initAcc, hk]⟩
   · intro rows r st ih hok
@@ -536,7 +537,7 @@ theorem max_inv (a : AggSpec) (hk : a.kind = .max) : ∀ rows : List Row, ValsOk
       · exact Or.inr ⟨m, by simp [AccSt.update, he], h2⟩
     | some t =>
       have e1 : argVals a (rows ++ [r]) = argVals a rows ++ [t] := by simp [argVals_snoc, he]
-      have ht : okKey (some t) = true := hok t (by rw [e1]; simp)
+      have ht : okKey wd (some t) = true := hok t (by rw [e1]; simp)
       rw [e1]
       right
       rcases ih' with ⟨h1, rfl⟩ | ⟨m, rfl, h2⟩
@@ -547,12 +548,16 @@ theorem max_inv (a : AggSpec) (hk : a.kind = .max) : ∀ rows : List Row, ValsOk
         simp only [List.nil_append, List.mem_cons, List.not_mem_nil, or_false] at hu
         subst hu
         rw [keyLt_eq]; simp [keyInner, termLt_irrefl]
-      · have hmok : okKey (some m) = true := valsOk_prefix hok m h2.1
-        have := min_step (strictWeak_termKey.flip) (m := m) (t := t) (vals := argVals a rows)
+      · have hmok : okKey wd (some m) = true := valsOk_prefix hok m h2.1
+        have := min_step ((strictWeak_termKey wd).flip) (m := m) (t := t) (vals := argVals a rows)
           (fun u hu => valsOk_prefix hok u hu) ht h2
         refine ⟨if keyLt (some m) (some t) then t else m, ?_, this⟩
         have hne : (a.kind == AggK.min) = false := by rw [hk]; rfl
-        simp [AccSt.update, he, hne, keyGt_flip _ _ ht hmok]
+        simp [AccSt.update, he, hne, keyGt_flip wd _ _ ht hmok]
+
+/-- every argument value is a key on which the comparison is consistent: either without xsd:date / xsd:dateTime
+    values (numeric datatype URIs between xsd:boolean and xsd:string), or with them (… between xsd:dateTime and xsd:string) -/
+def ValsOk (a : AggSpec) (rows : List Row) : Prop := ValsOkAt false a rows ∨ ValsOkAt true a rows
 
 /-! ### the fraction digits of a terminating quotient -/
 
